@@ -7,6 +7,9 @@ package main
 import (
 	"fmt"
 	"os"
+	"reflect"
+	"runtime"
+	"strings"
 )
 
 type genFunc func(repo string) (name string, content string, err error)
@@ -19,16 +22,25 @@ func init() {
 			fmt.Fprintln(os.Stderr, "usage: harness gen <repo> <outdir>")
 			return 2
 		}
+		// A generator that cannot translate the current sources must not stop the others: only the
+		// properties that depend on its table are affected.  Failures are listed in FAILED.txt
+		// (one generator function name per line, e.g. main.genLocks) and the old table stays.
+		var failed []string
 		for _, g := range generators {
+			fname := runtime.FuncForPC(reflect.ValueOf(g).Pointer()).Name()
 			name, content, err := g(args[0])
 			if err != nil {
-				fmt.Fprintln(os.Stderr, "gen:", err)
-				return 1
+				fmt.Fprintln(os.Stderr, "gen:", fname+":", err)
+				failed = append(failed, fname+"\t"+strings.ReplaceAll(err.Error(), "\n", " "))
+				continue
 			}
 			if err := os.WriteFile(args[1]+"/"+name, []byte(content), 0o644); err != nil {
 				fmt.Fprintln(os.Stderr, "gen:", err)
 				return 1
 			}
+		}
+		if len(failed) > 0 {
+			os.WriteFile(args[1]+"/FAILED.txt", []byte(strings.Join(failed, "\n")+"\n"), 0o644)
 		}
 		return 0
 	}
